@@ -502,6 +502,21 @@ def lhs_fields(lhs):
     return f[0], int(f[1]), int(f[3]), " ".join(f[4:-1]), f[-1]
 def hexlen(h):
     return 0 if h == "-" else len(h) // 2
+def split_inits(text):
+    """top-level parenthesised groups (or bare words) of an initialiser list"""
+    out, depth, cur = [], 0, ""
+    for ch in text:
+        if ch == "(":
+            depth += 1
+        if ch == " " and depth == 0:
+            if cur: out.append(cur)
+            cur = ""
+            continue
+        cur += ch
+        if ch == ")":
+            depth -= 1
+    if cur: out.append(cur)
+    return out
 
 def proj_C03(lhs, o, t):
     if lhs[0] != "E" or o["cls"] != "ok": return ()
@@ -569,8 +584,13 @@ def oracle_C18(lhs, o, t, om):
             return ("INVALID-AS-MODELLED" if o.get("p") == om.get("p") and o.get("after") == om.get("after") else "INVALID") + f" after a failed assign_in_place: {o.get('p')}"
         if (o.get("a2") or "").startswith("PANIC") or (o.get("p2") or "").startswith("PANIC"): return "panic when the value is used again after a failed assign_in_place"
         p2 = probe_fields(o.get("p2"))
-        if p2 is None or not p2["ok"]: return f"INVALID after assigning again: {o.get('p2')}"
         kind, tid, a16, init, pre = lhs_fields(lhs)
+        if p2 is None or not p2["ok"]:
+            inits = split_inits(init)
+            second = inits[1] if len(inits) > 1 else "?"
+            if (o.get("a2") or "").startswith("err") and o.get("p2") == om.get("p2") and o.get("a2") == om.get("a2"):
+                return f"INVALID-AS-MODELLED after a failed second assign_in_place of {second}: {o.get('p2')}"
+            return f"INVALID after assigning again ({o.get('a2')}) with {second}: {o.get('p2')}"
         if o["kind"] == "insufficientSize" and o.get("after_raw", o.get("after")) != pre:
             if o.get("after") == om.get("after"):
                 return "CHANGED-AS-MODELLED: target changed (still valid) by a failed assign for lack of room"
